@@ -478,20 +478,144 @@ func ruleR203(p *Program, r *Report) {
 		conv := callNamedIn(hook, "convertMapToBytes")
 		calc := callNamedIn(hook, "CalculateIntegrityCheck")
 		okW := conv != nil && calc != nil && plainArgs(calc)[0] == ssa.Value(extractOf(conv, 0))
-		// map updates of integrity/chain happen after conv
-		for _, b := range hook.Blocks {
-			for _, in := range b.Instrs {
-				if mu, isMu := in.(*ssa.MapUpdate); isMu && conv != nil {
-					if !(conv.Block() == mu.Block() && instrBefore(conv, mu)) && !reaches(conv.Block(), mu.Block(), nil) {
-						okW = false
-					}
-					if conv.Block() == mu.Block() && !instrBefore(conv, mu) {
-						okW = false
+		why := "the tag is not computed over convertMapToBytes(parsed)"
+		// the keys the parser takes out of the map before it recomputes the tag (and the value a removal is conditioned on)
+		type pkey struct{ key, onlyWhen string }
+		deleted := func(fn *ssa.Function) []pkey {
+			var out []pkey
+			for _, b := range fn.Blocks {
+				for _, in := range b.Instrs {
+					if c, isC := in.(*ssa.Call); isC {
+						if bi, isB := c.Call.Value.(*ssa.Builtin); isB && bi.Name() == "delete" {
+							if k, ok := constStrI(c.Call.Args[1]); ok {
+								pk := pkey{key: k}
+								for _, ob := range fn.Blocks {
+									if iff, isIf := ob.Instrs[len(ob.Instrs)-1].(*ssa.If); isIf && ob.Succs[0] == b {
+										if bo, isBo := iff.Cond.(*ssa.BinOp); isBo && bo.Op.String() == "==" {
+											if v, ok := constStrI(bo.Y); ok {
+												pk.onlyWhen = v
+											} else if v, ok := constStrI(bo.X); ok {
+												pk.onlyWhen = v
+											}
+										}
+									}
+								}
+								out = append(out, pk)
+							}
+						}
 					}
 				}
 			}
+			return out
 		}
-		r.Check(okW, "R20.3", fnName(hook), "JSON writer authenticates the map before adding integrity/chain", p.Pos(hook.Pos()), "convertMapToBytes(parsed) precedes parsed[integrity]/parsed[chain]", "the JSON hook authenticates a map that already holds the integrity or chain=new keys (the parser removes them before recomputing)")
+		pkeys := deleted(jp)
+		// the hook removes nothing else, and under no other condition, than the parser does
+		for _, wk := range deleted(hook) {
+			match := false
+			for _, pk := range pkeys {
+				if pk == wk {
+					match = true
+				}
+			}
+			if !match {
+				okW, why = false, "the hook removes \""+wk.key+"\" from the authenticated map (when its value is \""+wk.onlyWhen+"\"; empty = always) but the parser does not remove it under the same condition"
+			}
+		}
+		if conv != nil && calc != nil {
+			var m ssa.Value = plainArgs(conv)[0]
+			isDel := func(in ssa.Instruction, key string) bool {
+				c, isC := in.(*ssa.Call)
+				if !isC {
+					return false
+				}
+				bi, isB := c.Call.Value.(*ssa.Builtin)
+				if !isB || bi.Name() != "delete" || !sameCellLoad(c.Call.Args[0], m) {
+					return false
+				}
+				k, ok := constStrI(c.Call.Args[1])
+				return ok && k == key
+			}
+			for _, pk := range pkeys {
+				// (1) the hook's own value for this key is put into the map only after the computation
+				for _, b := range hook.Blocks {
+					for _, in := range b.Instrs {
+						mu, isMu := in.(*ssa.MapUpdate)
+						if !isMu || !sameCellLoad(mu.Map, m) {
+							continue
+						}
+						if k, ok := constStrI(mu.Key); ok && k == pk.key {
+							after := (conv.Block() == mu.Block() && instrBefore(conv, mu)) || (conv.Block() != mu.Block() && reaches(conv.Block(), mu.Block(), nil) && !reaches(mu.Block(), conv.Block(), nil))
+							if !after {
+								okW, why = false, "parsed["+pk.key+"] is set before the tag is computed"
+							}
+						}
+					}
+				}
+				// (2) a field of the entry under this key is taken out before the computation: from the 'present' edge of
+				// a lookup of the key, convertMapToBytes is reached only through delete(parsed, key) - or, when the
+				// parser removes the key only for one value, over the 'other value' edge of a comparison with it
+				looked := false
+				for _, b := range hook.Blocks {
+					for _, in := range b.Instrs {
+						lk, isLk := in.(*ssa.Lookup)
+						if !isLk || !lk.CommaOk || !sameCellLoad(lk.X, m) {
+							continue
+						}
+						if k, ok := constStrI(lk.Index); !ok || k != pk.key {
+							continue
+						}
+						okv := extractOf(lk, 1)
+						if okv == nil {
+							continue
+						}
+						for _, iff := range ifsOn(okv) {
+							looked = true
+							seen := map[*ssa.BasicBlock]bool{}
+							var dfs func(x *ssa.BasicBlock) bool
+							dfs = func(x *ssa.BasicBlock) bool {
+								if seen[x] {
+									return false
+								}
+								seen[x] = true
+								for _, xi := range x.Instrs {
+									if isDel(xi, pk.key) {
+										return false
+									}
+									if xi == ssa.Instruction(conv) {
+										return true
+									}
+								}
+								if xif, isIf := x.Instrs[len(x.Instrs)-1].(*ssa.If); isIf && pk.onlyWhen != "" {
+									if bo, isBo := xif.Cond.(*ssa.BinOp); isBo && bo.Op.String() == "==" {
+										vx, okx := constStrI(bo.X)
+										vy, oky := constStrI(bo.Y)
+										if (okx && vx == pk.onlyWhen) || (oky && vy == pk.onlyWhen) {
+											return dfs(x.Succs[0]) // the 'other value' edge is fine
+										}
+									}
+								}
+								for _, sx := range x.Succs {
+									if dfs(sx) {
+										return true
+									}
+								}
+								return false
+							}
+							if dfs(iff.Block().Succs[0]) {
+								okW, why = false, "an entry field named \""+pk.key+"\" stays in the map that is authenticated; the parser removes that key before it recomputes the tag"
+							}
+						}
+					}
+				}
+				if !looked {
+					okW, why = false, "the hook never looks whether the entry already has a field named \""+pk.key+"\": it would be authenticated here and removed by the parser"
+				}
+			}
+			if len(pkeys) < 2 {
+				okW, why = false, "the parser's removals of integrity / chain=new were not found"
+			}
+		}
+		r.Check(okW, "R20.3", fnName(hook), "JSON writer authenticates the map without the keys the parser removes", p.Pos(hook.Pos()), "for every key the parser deletes: present -> deleted before convertMapToBytes, the hook's own value set afterwards", why+": an honest entry does not verify")
 	}
 	{
 		conv := callNamedIn(jp, "convertMapToBytes")
@@ -608,6 +732,34 @@ func init() {
 	mut("C20", "plaintext parser splits on the first occurrence (original defect)", "logging/log_entry_parser.go", "	tokenIndex := strings.LastIndex(rawData, DataSplitToken)\n	if tokenIndex < 0 {\n		return nil, ErrPlaintextIntegrityExtract\n	}", "	tokenIndex := strings.Index(rawData, DataSplitToken)\n	if tokenIndex < 0 {\n		return nil, ErrPlaintextIntegrityExtract\n	}", "R20.3", "last")
 	mut("C20", "writer appends the key before computing the tag", "logging/logging.go", "	integrity, newChain, err := integrityCalculator.CalculateIntegrityCheck(formatted.Bytes())\n	if err != nil {\n		return err\n	}\n	formatted.WriteString(SpaceDelimiter + IntegrityKey + EquallyDelimiter)", "	formatted.WriteString(SpaceDelimiter + IntegrityKey + EquallyDelimiter)\n	integrity, newChain, err := integrityCalculator.CalculateIntegrityCheck(formatted.Bytes())\n	if err != nil {\n		return err\n	}", "R20.3", "formatted bytes")
 	mut("C20", "JSON parser keeps the integrity key in the authenticated map", "logging/log_entry_parser.go", "	delete(parsed, IntegrityKey)\n", "", "R20.3", "JSON parser")
-	mut("C20", "JSON hook keeps numbers exact, parser does not", "logging/logging.go", "	parsed := make(map[string]interface{})\n	err := json.Unmarshal(formatted.Bytes(), &parsed)\n	if err != nil {\n		return err\n	}\n	logEntryDataBytes, err := convertMapToBytes(parsed)", "	parsed := make(map[string]interface{})\n	jd := json.NewDecoder(bytes.NewReader(formatted.Bytes()))\n	jd.UseNumber()\n	err := jd.Decode(&parsed)\n	if err != nil {\n		return err\n	}\n	logEntryDataBytes, err := convertMapToBytes(parsed)", "R20.3", "decode the entry the same way")
+	mut("C20", "JSON hook keeps numbers exact, parser does not", "logging/logging.go", "	parsed := make(map[string]interface{})\n	err := json.Unmarshal(formatted.Bytes(), &parsed)\n	if err != nil {\n		return err\n	}\n	// \"integrity\" and", "	parsed := make(map[string]interface{})\n	jd := json.NewDecoder(bytes.NewReader(formatted.Bytes()))\n	jd.UseNumber()\n	err := jd.Decode(&parsed)\n	if err != nil {\n		return err\n	}\n	// \"integrity\" and", "R20.3", "decode the entry the same way")
 	mut("C20", "reader back to a scanner without Err (original defect)", "logging/logging.go", "	reader := bufio.NewReader(f)\n	for {\n		line, readErr := reader.ReadString('\\n')\n		if len(line) > 0 {", "	reader := bufio.NewReader(f)\n	sc := bufio.NewScanner(f)\n	for sc.Scan() {\n		_ = sc.Text()\n	}\n	for {\n		line, readErr := reader.ReadString('\\n')\n		if len(line) > 0 {", "R20.4", "read error")
+}
+
+// constStrI: constant string, also when boxed into an interface for a comparison.
+func constStrI(v ssa.Value) (string, bool) {
+	if mi, ok := v.(*ssa.MakeInterface); ok {
+		v = mi.X
+	}
+	return constStringOf(v)
+}
+
+// sameCellLoad: the same value, or two loads of the same local variable (a variable whose address is taken is
+// re-loaded at every use).
+func sameCellLoad(a, b ssa.Value) bool {
+	if a == b {
+		return true
+	}
+	ua, ok1 := a.(*ssa.UnOp)
+	ub, ok2 := b.(*ssa.UnOp)
+	return ok1 && ok2 && ua.X == ub.X
+}
+
+func init() {
+	mut("C20", "JSON hook authenticates entry fields named like its own keys (original defect)", "logging/logging.go",
+		"\t// \"integrity\" and \"chain\":\"new\" are what this hook adds after the computation and what the parser takes out\n\t// before it: a field of the entry that looks the same is kept under another name\n\tif value, ok := parsed[IntegrityKey]; ok {\n\t\tdelete(parsed, IntegrityKey)\n\t\tparsed[freeFieldName(parsed, IntegrityKey)] = value\n\t}\n\tif value, ok := parsed[AuditLogChainKey]; ok && value == NewAuditLogChainValue {\n\t\tdelete(parsed, AuditLogChainKey)\n\t\tparsed[freeFieldName(parsed, AuditLogChainKey)] = value\n\t}\n\tlogEntryDataBytes, err := convertMapToBytes(parsed)\n\tif err != nil {\n\t\treturn err\n\t}\n\tintegrity, newChain, err := h.integrityCalculator.CalculateIntegrityCheck(logEntryDataBytes)\n\tif err != nil {\n\t\treturn err\n\t}\n\tparsed[IntegrityKey] = hex.EncodeToString(integrity)\n\tif newChain {\n\t\tparsed[AuditLogChainKey] = NewAuditLogChainValue\n\t}\n\tnewFormatted, err := json.Marshal(parsed)\n\tif err != nil {\n\t\treturn err\n\t}\n\tformatted.Truncate(0)\n\tformatted.Write(newFormatted)\n\tformatted.WriteString(\"\\n\")\n\treturn nil\n}\n\n// freeFieldName returns a name for a field of the entry that clashes with a key of the hook,\n// the way logrus renames fields that clash with its own keys\nfunc freeFieldName(parsed map[string]interface{}, key string) string {\n\tname := \"fields.\" + key\n\tfor {\n\t\tif _, taken := parsed[name]; !taken {\n\t\t\treturn name\n\t\t}\n\t\tname = \"fields.\" + name\n\t}\n",
+		"\tlogEntryDataBytes, err := convertMapToBytes(parsed)\n\tif err != nil {\n\t\treturn err\n\t}\n\tintegrity, newChain, err := h.integrityCalculator.CalculateIntegrityCheck(logEntryDataBytes)\n\tif err != nil {\n\t\treturn err\n\t}\n\tparsed[IntegrityKey] = hex.EncodeToString(integrity)\n\tif newChain {\n\t\tparsed[AuditLogChainKey] = NewAuditLogChainValue\n\t}\n\tnewFormatted, err := json.Marshal(parsed)\n\tif err != nil {\n\t\treturn err\n\t}\n\tformatted.Truncate(0)\n\tformatted.Write(newFormatted)\n\tformatted.WriteString(\"\\n\")\n\treturn nil\n", "R20.3", "JSON writer authenticates the map without")
+	mut("C20", "JSON hook moves an entry's chain field aside whatever its value", "logging/logging.go", "	if value, ok := parsed[AuditLogChainKey]; ok && value == NewAuditLogChainValue {", "	if value, ok := parsed[AuditLogChainKey]; ok {", "R20.3", "JSON writer authenticates the map without")
+	mut("C20", "JSON hook forgets the look-alike chain=new field", "logging/logging.go", "	if value, ok := parsed[AuditLogChainKey]; ok && value == NewAuditLogChainValue {\n		delete(parsed, AuditLogChainKey)\n		parsed[freeFieldName(parsed, AuditLogChainKey)] = value\n	}\n", "", "R20.3", "JSON writer authenticates the map without")
+	mut("C20", "JSON hook renames the look-alike integrity field but leaves it in place", "logging/logging.go", "		delete(parsed, IntegrityKey)\n		parsed[freeFieldName(parsed, IntegrityKey)] = value", "		parsed[freeFieldName(parsed, IntegrityKey)] = value", "R20.3", "JSON writer authenticates the map without")
 }
